@@ -316,6 +316,16 @@ class Resolver(object):
                 out = self._local_callable(func, fn.id, ctx)
                 return self._done(func, call, out, record)
             return self._done(func, call, self._from_static(r, ctx), record)
+        # eval(<dict>[key] + 'SUFFIX').method(...)  /  eval('prefix' + name)(...): literal-driven dispatch
+        ev = fn.value if isinstance(fn, ast.Attribute) else fn
+        if isinstance(ev, ast.Call) and isinstance(ev.func, ast.Name) and ev.func.id == 'eval' and ev.args:
+            classes = self._eval_classes(func, ev.args[0])
+            for ci in classes:
+                if isinstance(fn, ast.Attribute):
+                    out.extend(self.method_targets(ci, fn.attr, ctx_owner=self.self_class(func, ctx)))
+                else:
+                    out.extend(self._from_static(('class', ci), ctx))
+            return self._done(func, call, out, record)
         if isinstance(fn, ast.Attribute):
             # static chain (module.func, Class.method, nfc.clf.Class)
             r = None
@@ -343,6 +353,23 @@ class Resolver(object):
                 out.extend(ts)
             return self._done(func, call, out, record)
         return self._done(func, call, out, record)
+
+    def _eval_classes(self, func, arg):
+        """Classes named by eval(D[k] + 'SUFFIX') where D is a dict literal assigned in the function."""
+        out = []
+        if isinstance(arg, ast.BinOp) and isinstance(arg.op, ast.Add) and isinstance(arg.right, ast.Constant) \
+                and isinstance(arg.left, ast.Subscript) and isinstance(arg.left.value, ast.Name):
+            suffix = arg.right.value
+            dname = arg.left.value.id
+            for n in walk_no_nested(func.node):
+                if isinstance(n, ast.Assign) and any(isinstance(t, ast.Name) and t.id == dname for t in n.targets) \
+                        and isinstance(n.value, ast.Dict):
+                    for v in n.value.values:
+                        if isinstance(v, ast.Constant) and isinstance(v.value, str):
+                            ent = func.module.names.get(v.value + suffix)
+                            if ent and ent[0] == 'class':
+                                out.append(ent[1])
+        return out
 
     def _instance_alias(self, func, cls, attr, ctx):
         """self.attr = self.other_method  (instance re-binding)."""
